@@ -52,6 +52,12 @@ def check(ctx: Ctx) -> None:
             ctx.floors[b] = ctx.floors.pop(a)
     # the filter is evaluated against the CURRENT schema (column name -> field id for pruning): the read path keeps no memo
     single_filter_engine(ctx)
+    from .c20 import r2 as c20_r2
+    ctx.shared(c20_r2, "C20.R2", "C12.R14", "scan APIs resolve the same snapshot: throttled / forbidden HEADs are errors, not absence")
+    from .c20 import r12_stream_faithful
+    r12_stream_faithful(ctx, "C12.R15")
+    from .c10 import r7 as c10_r7
+    ctx.shared(c10_r7, "C10.R7", "C12.R16", "every scan resolves the committed version from storage (no metadata cache keyed by a coarse mtime)")
     from .c02 import r6 as c02_r6
     ctx.shared(c02_r6, "C02.R6", "C12.R12", "a remembered schema maps a filter column to another column's bounds after the table "
                "is re-created at the same location")
